@@ -156,6 +156,55 @@ def floors(tier):
             "op:reset-for-reexecution": 200,
             "op:query-unregistered": 100,
             "clone-then-diverge": 300,
+            "xover-direct:suite": 150,
+            "xover-direct:suite:p1=0": 30,
+            "xover-direct:suite:p1=1": 30,
+            "xover-direct:suite:p1=size-1": 30,
+            "xover-direct:suite:p1=size": 30,
+            "xover-direct:suite:p2=0": 30,
+            "xover-direct:suite:p2=size-1": 30,
+            "xover-direct:suite:p2=size": 30,
+            "xover-direct:suite:p2=>size": 30,
+            "xover-direct:suite:other=pool": 30,
+            "xover-direct:suite:other=empty": 30,
+            "xover-direct:suite:other=clone-of-self": 30,
+            "xover-direct:suite:self-empty": 20,
+            "xover-direct:suite:tail-empty": 20,
+            "xover-direct:suite:head-empty": 20,
+            "xover-direct:suite:shrinks-only": 20,
+            "xover-direct:suite:grows-only": 10,
+            "xover-direct:testcase": 150,
+            "xover-direct:testcase:p1=0": 30,
+            "xover-direct:testcase:p1=1": 30,
+            "xover-direct:testcase:p1=size-1": 30,
+            "xover-direct:testcase:p1=size": 30,
+            "xover-direct:testcase:p2=0": 30,
+            "xover-direct:testcase:p2=size-1": 30,
+            "xover-direct:testcase:p2=size": 30,
+            "xover-direct:testcase:p2=>size": 30,
+            "xover-direct:testcase:other=pool": 30,
+            "xover-direct:testcase:other=empty": 30,
+            "xover-direct:testcase:other=clone-of-self": 30,
+            "xover-direct:testcase:self-empty": 20,
+            "xover-direct:testcase:tail-empty": 20,
+            "xover-direct:testcase:head-empty": 20,
+            "xover-direct:testcase:shrinks-only": 20,
+            "xover-direct:testcase:grows-only": 10,
+            "degenerate:suite:add-empty-list": 20,
+            "degenerate:suite:delete-only-test": 20,
+            "degenerate:suite:delete-absent-test": 20,
+            "degenerate:suite:set-index-0": 20,
+            "degenerate:suite:set-index-last": 20,
+            "degenerate:suite:set-same-object": 20,
+            "degenerate:suite:delete-first": 20,
+            "degenerate:suite:delete-last": 20,
+            "degenerate:suite:add-to-empty": 20,
+            "degenerate:suite:add-list-of-one": 20,
+            "degenerate:testcase:set-empty-test-case": 20,
+            "degenerate:testcase:set-test-case-clone": 20,
+            "degenerate:testcase:set-other-test-case": 20,
+            "degenerate:testcase:remove-last-execution-result": 20,
+            "degenerate:testcase:remove-all-statements": 20,
         },
     }
 
@@ -680,7 +729,11 @@ def _apply(world, rng, forced=None):  # noqa: C901, PLR0912, PLR0915
         ("suite-replace-member", 4), ("suite-add-ff", 4), ("suite-add-cf", 4), ("suite-query", 16), ("suite-query-all", 5),
         ("suite-aggregate", 3), ("suite-set-changed", 2), ("suite-invalidate", 2), ("suite-set-fitness-values", 2), ("suite-reset", 2),
         ("member-query", 6), ("query-unregistered", 1),
+        ("suite-cross-direct", 4), ("tc-cross-direct", 4), ("suite-degenerate", 3), ("tc-degenerate", 2),
     ]
+    params = None
+    if isinstance(forced, (tuple, list)):
+        forced, params = forced[0], forced[1]
     op = forced or rng.choices([o for o, _ in ops], weights=[w for _, w in ops])[0]
     entry = [op]
     mon.hist.append(entry)
@@ -714,6 +767,23 @@ def _apply(world, rng, forced=None):  # noqa: C901, PLR0912, PLR0915
             getattr(ch, kind)(fn)
         except Exception:  # noqa: BLE001 - already reported by the monitor
             pass
+
+    def query_all(ch):
+        qs = [("get_fitness_for", f) for f in ch.get_fitness_functions()] + [("get_is_covered", f) for f in ch.get_fitness_functions()]
+        qs += [("get_coverage_for", f) for f in ch.get_coverage_functions()]
+        rng.shuffle(qs)
+        for k, f in qs:
+            try:
+                getattr(ch, k)(f)
+            except Exception:  # noqa: BLE001 - already reported by the monitor
+                pass
+
+    def ensure_functions(ch):
+        if not ch.get_fitness_functions():
+            for f in ffs_all[:2]:
+                ch.add_fitness_function(f)
+        if not ch.get_coverage_functions():
+            ch.add_coverage_function(cfs_all[0])
 
     if op == "tc-mutate":
         no_sut = not factory.has_call_on_sut(c.test_case)
@@ -937,6 +1007,128 @@ def _apply(world, rng, forced=None):  # noqa: C901, PLR0912, PLR0915
                 query_one(t)
                 if rng.random() < 0.5:
                     query_one(t)
+    elif op in ("suite-cross-direct", "tc-cross-direct"):
+        # Chromosome.cross_over(other, position1, position2) with explicit boundary positions, on a cached chromosome
+        tag = "suite" if is_suite else "testcase"
+        pr = params or {}
+        self_empty = pr.get("self_empty", rng.random() < 0.12)
+        if self_empty:
+            if is_suite:
+                c = world.tsc.TestSuiteChromosome(world.chf)
+            else:
+                import pynguin.testcase.testcase as tc
+
+                c = world.tcc.TestCaseChromosome(tc.TestCase(), factory)
+            mon.meta_of(c)
+            pool[i] = c
+        ensure_functions(c)
+        okind = pr.get("other", rng.choice(["pool", "pool", "empty", "clone-of-self"]))
+        if okind == "empty":
+            if is_suite:
+                other = world.tsc.TestSuiteChromosome(world.chf)
+            else:
+                import pynguin.testcase.testcase as tc
+
+                other = world.tcc.TestCaseChromosome(tc.TestCase(), factory)
+        elif okind == "clone-of-self":
+            other = c.clone()
+        else:
+            other = pool[(i + 1 + rng.randrange(len(pool) - 1)) % len(pool)]
+        n, m = c.size(), other.size()
+        k1 = pr.get("p1", rng.choice(["0", "1", "size-1", "size"]))
+        k2 = pr.get("p2", rng.choice(["0", "size-1", "size", ">size"]))
+        p1 = max(0, {"0": 0, "1": 1, "size-1": n - 1, "size": n}[k1])
+        p2 = max(0, {"0": 0, "size-1": m - 1, "size": m, ">size": m + 1 + rng.randrange(3)}[k2])
+        entry.append({"self_size": n, "other": okind, "other_size": m, "p1": [k1, p1], "p2": [k2, p2]})
+        query_all(c)  # the values are cached and the changed flag is cleared before the splice
+        before = world.snapshot(c)
+        if operator(op, lambda: c.cross_over(other, p1, p2)):
+            if is_suite:
+                world.mark_members()
+            shape = "tail-empty" if p2 >= m else ("head-kept-entirely" if p1 >= n else ("head-empty" if p1 == 0 else "inner-split"))
+            modified = _event(mon, c, f"cross_over[{shape}]", before, world)
+            cl = [f"xover-direct:{tag}", f"xover-direct:{tag}:p1={k1}", f"xover-direct:{tag}:p2={k2}", f"xover-direct:{tag}:other={okind}"]
+            if self_empty:
+                cl.append(f"xover-direct:{tag}:self-empty")
+            if p2 >= m:
+                cl.append(f"xover-direct:{tag}:tail-empty")
+            if p1 == 0:
+                cl.append(f"xover-direct:{tag}:head-empty")
+            if p2 >= m and p1 < n and modified:
+                cl.append(f"xover-direct:{tag}:shrinks-only")
+            if p1 >= n and p2 < m and modified:
+                cl.append(f"xover-direct:{tag}:grows-only")
+            for x in cl:
+                ctx.cls(x)
+        query_all(c)
+    elif op == "suite-degenerate":
+        ensure_functions(c)
+        how = (params or {}).get("how") or rng.choice(["add-empty-list", "delete-only-test", "delete-absent-test", "set-index-0", "set-index-last",
+                                                     "set-same-object", "delete-first", "delete-last", "add-to-empty", "add-list-of-one"])
+        entry.append(how)
+        if how in ("delete-only-test",):
+            c.test_case_chromosomes = c.test_case_chromosomes[:1] or [world.new_tc()]
+            c.changed = True
+        if how == "add-to-empty":
+            c = world.tsc.TestSuiteChromosome(world.chf)
+            mon.meta_of(c)
+            pool[i] = c
+            ensure_functions(c)
+        if how.startswith(("set-", "delete-first", "delete-last")) and c.size() == 0:
+            c.add_test_case_chromosome(world.new_tc())
+        query_all(c)
+        before = world.snapshot(c)
+        if how == "add-empty-list":
+            c.add_test_case_chromosomes([])
+        elif how == "add-list-of-one":
+            c.add_test_case_chromosomes([world.new_tc()])
+        elif how == "add-to-empty":
+            c.add_test_case_chromosome(world.new_tc())
+        elif how == "delete-only-test":
+            c.delete_test_case_chromosome(c.get_test_case_chromosome(0))
+        elif how == "delete-absent-test":
+            c.delete_test_case_chromosome(world.new_tc())
+        elif how == "delete-first":
+            c.delete_test_case_chromosome(c.get_test_case_chromosome(0))
+        elif how == "delete-last":
+            c.delete_test_case_chromosome(c.get_test_case_chromosome(c.size() - 1))
+        elif how == "set-index-0":
+            c.set_test_case_chromosome(0, world.new_tc())
+        elif how == "set-index-last":
+            c.set_test_case_chromosome(c.size() - 1, rng.choice(world.tcs).clone())
+        elif how == "set-same-object":
+            k = rng.randrange(c.size())
+            c.set_test_case_chromosome(k, c.get_test_case_chromosome(k))
+        world.mark_members()
+        _event(mon, c, f"suite-{how}", before, world)
+        ctx.cls(f"degenerate:suite:{how}")
+        query_all(c)
+    elif op == "tc-degenerate":
+        import pynguin.testcase.testcase as tc
+
+        ensure_functions(c)
+        how = (params or {}).get("how") or rng.choice(["set-empty-test-case", "set-test-case-clone", "set-other-test-case",
+                                                     "remove-last-execution-result", "remove-all-statements"])
+        entry.append(how)
+        query_all(c)
+        before = world.snapshot(c)
+        if how == "set-empty-test-case":
+            c.test_case = tc.TestCase()
+            c.changed = True  # the setter is the raw path; the operators set the flag themselves
+        elif how == "set-test-case-clone":
+            c.test_case = c.test_case.clone()
+            c.changed = True
+        elif how == "set-other-test-case":
+            c.test_case = rng.choice(world.tcs).test_case.clone()
+            c.changed = True
+        elif how == "remove-last-execution-result":
+            c.remove_last_execution_result()  # tests unchanged: cached values stay valid
+        elif how == "remove-all-statements":
+            c.test_case.remove_statements_batch(set(range(c.size())))
+            c.changed = True
+        _event(mon, c, f"tc-{how}", before, world)
+        ctx.cls(f"degenerate:testcase:{how}")
+        query_all(c)
     elif op == "query-unregistered":
         # a function that is *not* registered on this chromosome is queried (works through the 'only' path)
         which = rng.choice(["tc", "suite"])
@@ -1001,7 +1193,7 @@ def _history(ctx, mon, rng, env, length, forced=None, setup=None):
     for f in ops:
         _apply(world, rng, forced=f)
     opseq = [h[0] for h in mon.hist]
-    nontrivial = ctx.evals > evals0 and any(o.endswith(("mutate", "crossover", "edit", "test", "member")) for o in opseq)
+    nontrivial = ctx.evals > evals0 and any(o.endswith(("mutate", "crossover", "edit", "test", "member", "direct", "degenerate")) for o in opseq)
     tests = [world.snapshot(c) for c in world.tcs + world.suites]
     ctx.ok(0, cls="history", distinct={"ops": opseq, "tests": tests} if nontrivial else None)
     ctx.cls("history")
@@ -1093,6 +1285,21 @@ def run_chunk(spec, ctx):
 
                     _history(ctx, mon, rng, env, 0, setup=setup,
                              forced=["tc-query-all", "tc-mutate", "tc-query-all", "tc-mutate", "tc-query", "tc-query", "tc-mutate", "tc-query-all"] * 2)
+                # explicit boundary split points of Chromosome.cross_over and degenerate arguments of the public mutators
+                for opname in ("suite-cross-direct", "tc-cross-direct"):
+                    for k1 in ("0", "1", "size-1", "size"):
+                        for k2 in ("0", "size-1", "size", ">size"):
+                            for okind in ("pool", "empty", "clone-of-self"):
+                                for self_empty in (False, True) if (k1 in ("0", "size") and okind != "clone-of-self") else (False,):
+                                    for rep in range(1):
+                                        _history(ctx, mon, rng, env, 0, forced=["suite-add-test", (opname, {"p1": k1, "p2": k2, "other": okind, "self_empty": self_empty})])
+                for how in ("add-empty-list", "delete-only-test", "delete-absent-test", "set-index-0", "set-index-last", "set-same-object",
+                            "delete-first", "delete-last", "add-to-empty", "add-list-of-one"):
+                    for rep in range(8):
+                        _history(ctx, mon, rng, env, 0, forced=["suite-add-test", ("suite-degenerate", {"how": how}), "suite-query-all"])
+                for how in ("set-empty-test-case", "set-test-case-clone", "set-other-test-case", "remove-last-execution-result", "remove-all-statements"):
+                    for rep in range(8):
+                        _history(ctx, mon, rng, env, 0, forced=[("tc-degenerate", {"how": how}), "tc-query-all"])
                 # mutate() chops after the failing statement 0, what is left has no call on the SUT, nothing is inserted
                 for rep in range(15):
                     _history(ctx, mon, rng, env, 0, forced=["tc-chop-setup", "tc-mutate", "tc-query-all", "tc-mutate", "tc-query-all",
